@@ -87,6 +87,8 @@ class SBytes:
 
     def __getitem__(self, i):
         if isinstance(i, slice):
+            if isinstance(i.start, SInt) or isinstance(i.stop, (SInt, ZInt)):
+                return self._symslice(i)
             return SBytes(self.b[i])
         if isinstance(i, SInt):
             c = i.concrete()
@@ -95,6 +97,30 @@ class SBytes:
             i = c
         v = self.b[i]
         return v if isinstance(v, int) else SInt(v, 8)
+
+    def _symslice(self, i):
+        """self[start:stop] with a symbolic start and a length that is constant on this path"""
+        if i.step is not None or not isinstance(i.start, SInt) or i.stop is None:
+            raise Unsupported("symbolic slice form")
+        c0 = i.start.concrete()
+        d = ZInt.lift(i.stop) - ZInt.lift(i.start)
+        n = z3.simplify(d)
+        if z3.is_int_value(n):
+            n = n.as_long()
+        else:
+            slv = sym.CTX.solver if sym.CTX is not None else z3.Solver()
+            slv.push()
+            r = str(slv.check())
+            if r != "sat":
+                slv.pop()
+                raise Unsupported("slice length: solver %s" % r)
+            n = slv.model().eval(d, True).as_long()
+            slv.pop()
+            if not sym._forced(d == n):
+                raise Unsupported("slice length is not constant on this path")
+        if c0 is not None:
+            return SBytes(self.b[c0:c0 + n])
+        return self.sslice(i.start, n)
 
     def _select(self, i):
         n = len(self.b)
@@ -196,9 +222,7 @@ class SBytes:
 
     def _elem_in(self, x, chars):
         """does byte element x belong to the concrete byte set? (forks when undecided)"""
-        if isinstance(x, int):
-            return x in chars
-        return bool(SBool(z3.Or(*[x == c for c in chars]))) if chars else False
+        return sym.elem_in(x, list(chars))
 
     def rstrip(self, chars=b" \t\n\r\x0b\x0c"):
         b = list(self.b)
